@@ -226,23 +226,30 @@ DoStepK(r, trusted, span) ==
 DataOf(S) == <<S.store, S.kw, S.used, S.ttl, S.stats, S.shut, S.keepS, S.keepC, S.now, S.ack, Len(S.chan),
                [i \in DOMAIN S.buf |-> Len(S.buf[i])]>>
 
-\* a sub-step of a span (the actor arrives at a lock point): adopt what is observed, remember the span
+\* A sub-step of a span (the actor arrives at a lock point).  As long as the span has changed nothing that a snapshot shows,
+\* the observed state is adopted.  From its first change on, the changes are DEFERRED (not adopted): if the span ends before
+\* any other thread moves, its last record is compared with the specification's step of the span's site as a whole (exact,
+\* however many critical sections the span has).  If another thread moves first, the deferred changes are adopted at that
+\* moment (Flush, so that they are not attributed to the other thread) and the span is "dirty": not predicted, and only the
+\* state-level judges run for the rest of the run.
+NoSpan(r) == [site |-> r.site, arg |-> r.arg, ev |-> <<>>, truth |-> <<>>, n |-> 0, dirty |-> FALSE, deferred |-> FALSE, last |-> r]
+
 DoSub(r) ==
   LET a == r.actor
       A == Adopted(st, r)
+      old == IF IsL(r.site) /\ a \in DOMAIN lp THEN lp[a] ELSE NoSpan(r)
       changed == DataOf(A) # DataOf(st) \/ r.s.qlen # Len(st.queue)
-      old == IF IsL(r.site) /\ a \in DOMAIN lp THEN lp[a] ELSE [site |-> r.site, arg |-> r.arg, ev |-> <<>>, truth |-> <<>>, n |-> 0, dirty |-> FALSE]
-  IN /\ lp' = With(lp, a, [site |-> old.site, arg |-> old.arg, ev |-> old.ev \o r.ev, truth |-> old.truth \o r.truth,
-                           n |-> old.n + 1, dirty |-> old.dirty \/ changed])
-     /\ st' = A
-     /\ gh' = IF changed THEN [gh EXCEPT !.desync = @ \cup {a}] ELSE gh
+      defer == ~old.dirty /\ (old.deferred \/ changed)
+  IN /\ lp' = With(lp, a, [old EXCEPT !.ev = @ \o r.ev, !.truth = @ \o r.truth, !.n = @ + 1, !.deferred = defer, !.last = r])
+     /\ st' = IF defer THEN st ELSE A
+     /\ gh' = gh
      /\ pred' = pred
      /\ rep' = [rep EXCEPT !.steps = @ + 1, !.lsub = @ + 1]
 
 \* the last record of a span: the specification's step of the span's site
 DoLast(r) ==
   LET a == r.actor
-      p == IF a \in DOMAIN lp THEN lp[a] ELSE [site |-> r.site, arg |-> r.arg, ev |-> <<>>, truth |-> <<>>, n |-> 0, dirty |-> TRUE]
+      p == IF a \in DOMAIN lp THEN lp[a] ELSE [NoSpan(r) EXCEPT !.dirty = TRUE]
       r2 == [r EXCEPT !.site = p.site, !.arg = p.arg, !.ev = p.ev \o r.ev, !.truth = p.truth \o r.truth]
   IN /\ DoStepK(r2, ~p.dirty, TRUE)
      /\ lp' = [x \in DOMAIN lp \ {a} |-> lp[x]]
@@ -252,17 +259,29 @@ DoStep(r) ==
   ELSE IF r.actor # "env" /\ IsL(r.site) THEN DoLast(r)
   ELSE DoStepK(r, TRUE, FALSE) /\ UNCHANGED lp
 
+\* spans of actors other than the one of the next record that hold deferred changes
+ToFlush(r) == {x \in DOMAIN lp : lp[x].deferred /\ (r.t # "step" \/ x # r.actor)}
+
+\* adopt the deferred changes of one such span before the record of another thread is looked at (no record is consumed)
+Flush(r) ==
+  LET x == CHOOSE y \in ToFlush(r) : TRUE IN
+  /\ st' = Adopted(st, lp[x].last)
+  /\ lp' = [lp EXCEPT ![x].deferred = FALSE, ![x].dirty = TRUE]
+  /\ gh' = [gh EXCEPT !.desync = @ \cup {x}]
+  /\ UNCHANGED <<l, pred, rep>>
+
 Next ==
   /\ l <= Len(Rec)
-  /\ l' = l + 1
   /\ LET r == Rec[l] IN
-       CASE r.t = "reset" -> DoReset(r)
-         [] r.t = "step" -> DoStep(r)
-         [] r.t = "end" /\ r.site \in {"E_End", "E_Stuck"} ->
-              LET vs == IF st.cfg.max >= Huge THEN <<>> ELSE JudgeEnd(Adopted(st, r), gh, r.site = "E_Stuck")
-              IN /\ UNCHANGED <<st, gh, pred, lp>>
-                 /\ rep' = [rep EXCEPT !.nverd = @ + Len(vs), !.verdicts = Merge(@, vs, r.run, r.i)]
-         [] OTHER -> UNCHANGED <<st, gh, rep, pred, lp>>
+       IF r.t # "reset" /\ ToFlush(r) # {} THEN Flush(r)
+       ELSE /\ l' = l + 1
+            /\ CASE r.t = "reset" -> DoReset(r)
+                 [] r.t = "step" -> DoStep(r)
+                 [] r.t = "end" /\ r.site \in {"E_End", "E_Stuck"} ->
+                      LET vs == IF st.cfg.max >= Huge THEN <<>> ELSE JudgeEnd(Adopted(st, r), gh, r.site = "E_Stuck")
+                      IN /\ UNCHANGED <<st, gh, pred, lp>>
+                         /\ rep' = [rep EXCEPT !.nverd = @ + Len(vs), !.verdicts = Merge(@, vs, r.run, r.i)]
+                 [] OTHER -> UNCHANGED <<st, gh, rep, pred, lp>>
 
 Spec == Init /\ [][Next]_vars
 
@@ -270,7 +289,7 @@ Finished == l = Len(Rec) + 1
 
 \* POSTCONDITION: the whole trace was consumed; print the report for the orchestrator
 Accepted ==
-  LET ok == TLCGet("stats").diameter - 1 = Len(Rec)
+  LET ok == TLCGet("stats").diameter - 1 >= Len(Rec)   \* (one state per record, plus the Flush steps of lock-grain traces)
   IN IF ok THEN TRUE ELSE Print(<<"TRACE-NOT-CONSUMED", TLCGet("stats").diameter - 1, Len(Rec)>>, FALSE)
 
 ReportInv == Finished => PrintT(<<"REPORT", ToJson(rep)>>)
